@@ -9,6 +9,8 @@ import (
 	"os/exec"
 	"path/filepath"
 	"regexp"
+	"runtime/debug"
+	"runtime/pprof"
 	"sort"
 	"strconv"
 	"strings"
@@ -79,6 +81,8 @@ func main() {
 	if d := os.Getenv("VERIF_REPO"); d != "" {
 		repoDir = d
 	}
+	// The SSA program is a large live heap and the interpreter allocates freely: collect rarely.
+	debug.SetGCPercent(800)
 	// /repo needs go >= 1.26.4: use the pre-installed go1.26.8 toolchain for go list / go test.
 	os.Setenv("PATH", "/opt/veriftools/go1.26.8/bin:"+os.Getenv("PATH"))
 	os.Setenv("GOTOOLCHAIN", "local")
@@ -207,6 +211,7 @@ func cmdCheck(args []string) int {
 	trace := fs.Bool("trace", false, "trace calls")
 	only := fs.String("only", "", "run only this harness function")
 	noReplay := fs.Bool("no-replay", false, "skip native replay of counterexamples")
+	cpuprof := fs.String("cpuprofile", "", "write a CPU profile of the exploration to this file")
 	var id string
 	if len(args) > 0 && !strings.HasPrefix(args[0], "-") {
 		id = args[0]
@@ -243,6 +248,12 @@ func cmdCheck(args []string) int {
 		return 3
 	}
 	loadT := time.Since(start)
+	if *cpuprof != "" {
+		if f, err := os.Create(*cpuprof); err == nil {
+			pprof.StartCPUProfile(f)
+			defer pprof.StopCPUProfile()
+		}
+	}
 
 	mcfg := &symx.Config{
 		InitPkgs:      map[string]bool{},
